@@ -75,7 +75,7 @@ def run(tier, seed):
     if tier == 'quick':
         plan = [(('kwid', 'abcd'), [3], 0, 0), (('eqeq',), [2], 0, 0), (('kwx',), [2], 1, 1), (('idkw', 'num'), [2], 1, 0)]
     else:
-        plan = [(tuple(T), [1, 2, 3, 4], 0, 0), (tuple(T), [2, 3, 4], 1, 1), (tuple(T), [2, 3], 1, 0)]
+        plan = [(tuple(T), [1, 2, 3], 0, 0), (tuple(T), [2, 3], 1, 1), (tuple(T), [2], 1, 0), (('kwid', 'abcd'), [4], 0, 0)]
     for names, Ls, ws, nl in plan:
         sel = [(T[n], Ls) for n in names]
         cp.run_parse_property('C04', tier, seed, sel, ['accept', 'value', 'messages', 'positions'], '', ['term sets outside the T-sets family', 'inputs longer than LEN'],
